@@ -5,7 +5,7 @@ fake bus against the frame-level gear model's IEC 62386-209 Tc subset (harness/m
 16-bit registers, DTR0 = LSB, DTR1 = MSB, DTR2 = limit selector, ENABLE DEVICE TYPE 8 gating,
 send-twice rule for STORE ... LIMIT, QUERY COLOUR VALUE answers the MSB and leaves the LSB in DTR0).
 """
-from harness.bus import Bus, Fault, NonTermination
+from harness.bus import Bus, Fault, NonTermination, run_interleaved
 from harness.model_gear import GearModel
 from harness.runner import Result, library_frame
 
@@ -51,18 +51,46 @@ def bystander():
     return GearModel(short=10, groups={4}, device_types=[8])
 
 
-def case_set(case):
+class Job:
+    """One colour sequence prepared against its own units and bus; judged once its outcome is known."""
+
+    def __init__(self, kind, case, u, b, bus, seq, where):
+        self.kind, self.case, self.u, self.b, self.bus, self.seq, self.where = kind, case, u, b, bus, seq, where
+
+
+def run_alone(job):
+    """-> ("returned", value) | ("raised", exception)"""
+    try:
+        return ("returned", job.bus.run(job.seq()))
+    except Exception as e:  # noqa: classified by the judge
+        return ("raised", e)
+
+
+def _raised(job, oc, what):
+    """The violation for a sequence that must not raise, or None; harness errors propagate."""
+    if oc[0] != "raised":
+        return None
+    e = oc[1]
+    if library_frame(e.__traceback__) is None and not isinstance(e, NonTermination):
+        raise e
+    return [("C14:%s-raised:%s" % (what, type(e).__name__), "%s raised %r" % (job.where, e))]
+
+
+def prep_set(case):
     gs, colour, address = _load()
     v, kind = case["value"], case["dest"]
     u, b = unit(), bystander()
     bus = Bus([u, b] if kind in ("short", "int", "group") else [u], max_commands=20)
     where = "SetDT8ColourValueTc(%s, %d)" % (kind, v)
-    try:
-        bus.run(gs.SetDT8ColourValueTc(dest(address, kind), v))
-    except Exception as e:  # noqa
-        if library_frame(e.__traceback__) is None and not isinstance(e, NonTermination):
-            raise
-        return [("C14:set-raised:%s" % type(e).__name__, "%s raised %r" % (where, e))]
+    return Job("set", case, u, b, bus, lambda: gs.SetDT8ColourValueTc(dest(address, kind), v), where)
+
+
+def judge_set(job, oc):
+    case, u, b, where = job.case, job.u, job.b, job.where
+    v, kind = case["value"], case["dest"]
+    bad = _raised(job, oc, "set")
+    if bad:
+        return bad
     out = []
     lo, hi = v & 0xFF, v >> 8
     sets = [x for x in u.log if x[0] == "set_temp_tc"]
@@ -78,19 +106,23 @@ def case_set(case):
     return out
 
 
-def case_limit(case):
+def prep_limit(case):
     gs, colour, address = _load()
     v, sel, kind = case["value"], case["selector"], case["dest"]
     u = unit()
     bus = Bus([u], max_commands=20)
     where = "SetDT8TcLimit(%s, %d, %d)" % (kind, sel, v)
-    try:
-        limit_enum = colour.StoreColourTemperatureTcLimitDTR2
-        bus.run(gs.SetDT8TcLimit(dest(address, kind), limit_enum(sel) if case.get("as_enum") else sel, v))
-    except Exception as e:  # noqa
-        if library_frame(e.__traceback__) is None and not isinstance(e, NonTermination):
-            raise
-        return [("C14:limit-raised:%s" % type(e).__name__, "%s raised %r" % (where, e))]
+    limit_enum = colour.StoreColourTemperatureTcLimitDTR2
+    return Job("limit", case, u, None, bus,
+               lambda: gs.SetDT8TcLimit(dest(address, kind), limit_enum(sel) if case.get("as_enum") else sel, v), where)
+
+
+def judge_limit(job, oc):
+    case, u, where = job.case, job.u, job.where
+    v, sel = case["value"], case["selector"]
+    bad = _raised(job, oc, "limit")
+    if bad:
+        return bad
     out = []
     st = [x for x in u.log if x[0] == "store_limit"]
     if st != [("store_limit", v & 0xFF, v >> 8, sel)]:
@@ -111,7 +143,7 @@ def selectors():
     return SELECTORS
 
 
-def case_query(case):
+def prep_query(case):
     gs, colour, address = _load()
     sel, v = case["selector"], case["value"]
     u = unit()
@@ -126,14 +158,21 @@ def case_query(case):
     faults = []
     if case.get("fault"):
         faults = [Fault(case["fault"][0], case["fault"][1], case["fault"][2] if len(case["fault"]) > 2 else None)]
-    bus = Bus([u, bystander()], faults=faults, max_commands=20)
+    b = bystander()
+    bus = Bus([u, b], faults=faults, max_commands=20)
     where = "QueryDT8ColourValue(selector %d) on a unit holding %#06x%s" % (sel, v, (" with fault %r" % (case["fault"],)) if case.get("fault") else "")
-    try:
-        r = bus.run(gs.QueryDT8ColourValue(9 if case.get("int_addr") else address.GearShort(9), colour.QueryColourValueDTR(sel)))
-    except Exception as e:  # noqa
-        if library_frame(e.__traceback__) is None and not isinstance(e, NonTermination):
-            raise
-        return [("C14:query-raised:%s" % type(e).__name__, "%s raised %r" % (where, e))]
+    return Job("query", case, u, b, bus,
+               lambda: gs.QueryDT8ColourValue(9 if case.get("int_addr") else address.GearShort(9), colour.QueryColourValueDTR(sel)),
+               where)
+
+
+def judge_query(job, oc):
+    case, where = job.case, job.where
+    sel, v = case["selector"], case["value"]
+    bad = _raised(job, oc, "query")
+    if bad:
+        return bad
+    r = oc[1]
     f = case.get("fault")
     if f and f[0] in (2, 3):
         exp = None           # one of the two answer bytes missing or garbled
@@ -152,23 +191,30 @@ def case_query(case):
 ILLEGAL_TC = [65536, -1, 2 ** 32, 1.5, None, "153"]
 
 
-def case_illegal(case):
+def prep_illegal(case):
     gs, colour, address = _load()
     what = case["what"]
     u = unit()
     bus = Bus([u], max_commands=20)
-    try:
+
+    def seq():
         if what == "set":
-            seq = gs.SetDT8ColourValueTc(address.GearShort(9), ILLEGAL_TC[case["i"]])
-        elif what == "limit":
-            seq = gs.SetDT8TcLimit(address.GearShort(9), 0, ILLEGAL_TC[case["i"]])
-        else:
-            bad = [2, "ColourTemperatureTC", None, 2.0, 999, colour.StoreColourTemperatureTcLimitDTR2(1)][case["i"]]
-            seq = gs.QueryDT8ColourValue(address.GearShort(9), bad)
-        bus.run(seq)
-    except Exception as e:  # noqa
+            return gs.SetDT8ColourValueTc(address.GearShort(9), ILLEGAL_TC[case["i"]])
+        if what == "limit":
+            return gs.SetDT8TcLimit(address.GearShort(9), 0, ILLEGAL_TC[case["i"]])
+        bad = [2, "ColourTemperatureTC", None, 2.0, 999, colour.StoreColourTemperatureTcLimitDTR2(1)][case["i"]]
+        return gs.QueryDT8ColourValue(address.GearShort(9), bad)
+
+    return Job("illegal", case, u, None, bus, seq, "%s with illegal argument #%d" % (what, case["i"]))
+
+
+def judge_illegal(job, oc):
+    case, bus = job.case, job.bus
+    what = case["what"]
+    if oc[0] == "raised":
+        e = oc[1]
         if library_frame(e.__traceback__) is None and not isinstance(e, NonTermination):
-            raise
+            raise e
         if bus.n:
             return [("C14:illegal-rejected-late:" + what, "%s illegal argument #%d: %d command(s) were sent before %r"
                      % (what, case["i"], bus.n, e))]
@@ -176,8 +222,76 @@ def case_illegal(case):
     return [("C14:illegal-accepted:" + what, "%s illegal argument #%d was accepted; %d commands sent" % (what, case["i"], bus.n))]
 
 
+PREP = {"set": prep_set, "limit": prep_limit, "query": prep_query, "illegal": prep_illegal}
+JUDGE = {"set": judge_set, "limit": judge_limit, "query": judge_query, "illegal": judge_illegal}
+
+
+def case_single(case):
+    job = PREP[case["kind"]](case)
+    return JUDGE[job.kind](job, run_alone(job))
+
+
+# --------------------------------------------------- several sequences in flight ----
+LAST_INTER = [None]     # (id(case), did the sequences really overlap in time) of the most recent interleaved case
+
+
+def _end_state(job):
+    """Everything the units hold when the sequence is over."""
+    u, b = job.u, job.b
+    return {"tc": u.tc, "temporary tc": u.temp_tc, "tc limits": list(u.tc_limits), "dtr0": u.dtr0, "dtr1": u.dtr1,
+            "dtr2": u.dtr2, "level": u.level, "commands acted on": list(u.log),
+            "bystander": None if b is None else (b.tc, list(b.tc_limits), list(b.log))}
+
+
+def _result(oc):
+    return (oc[0], type(oc[1]).__name__) if oc[0] == "raised" else (oc[0], type(oc[1]).__name__, oc[1])
+
+
+def case_interleaved(case):
+    """Several colour sequences in flight at once, each on its own bus against its own unit, advanced command by
+    command in the order case['schedule'] (then case['cycle'] repeatedly): every unit must see and end with exactly what
+    it sees and ends with when its sequence runs alone, and every sequence must return what it returns alone."""
+    subs = case["jobs"]
+    jobs = [PREP[c["kind"]](c) for c in subs]
+    order = []
+    ocs = run_interleaved([(j.bus, j.seq) for j in jobs], case.get("schedule") or (), case.get("cycle") or None, order=order)
+    switches = sum(1 for a, b in zip(order, order[1:]) if a != b)
+    LAST_INTER[0] = (id(case), switches > len(jobs) - 1)
+    out, seen = [], set()
+
+    def add(sig, msg):
+        if sig not in seen:
+            seen.add(sig)
+            out.append((sig, msg))
+
+    for i, (job, oc) in enumerate(zip(jobs, ocs)):
+        vs = JUDGE[job.kind](job, oc)
+        ref = PREP[job.kind](subs[i])
+        roc = run_alone(ref)
+        rvs = JUDGE[ref.kind](ref, roc)
+        for sig, msg in rvs:                  # not a matter of interleaving: the sequence fails on its own
+            add(sig, msg)
+        alone = set(sig for sig, _ in rvs)
+        why = None
+        a, r = _end_state(job), _end_state(ref)
+        if _result(oc) != _result(roc):
+            why = "outcome %r, alone %r" % (_result(oc), _result(roc))
+        elif a != r:
+            k = [k for k in a if a[k] != r[k]][0]
+            why = "the unit ends with %s = %r, alone %r" % (k, a[k], r[k])
+        elif [v for v in vs if v[0] not in alone]:
+            why = "%s: %s" % [v for v in vs if v[0] not in alone][0]
+        if why:
+            add("C14:interleaved-sequences-interfere:" + ("illegal-" + subs[i]["what"] if job.kind == "illegal" else job.kind),
+                "sequence #%d of %d in flight at the same time on separate buses (advance order %s; the others: %s): %s: %s"
+                % (i, len(jobs), order, "; ".join(j.where for k, j in enumerate(jobs) if k != i), job.where, why))
+    return out
+
+
 def run_case(case):
-    return {"set": case_set, "limit": case_limit, "query": case_query, "illegal": case_illegal}[case["kind"]](case)
+    if case["kind"] == "interleaved":
+        return case_interleaved(case)
+    return case_single(case)
 
 
 def _shard(arg):
